@@ -109,7 +109,7 @@ impl Args {
             a.ip_groups = if thorough { usize::MAX } else { 7400 };
         }
         if a.ex_groups == 0 {
-            a.ex_groups = if thorough { usize::MAX } else { 440 };
+            a.ex_groups = if thorough { usize::MAX } else { 600 };
         }
         if a.cap_ms == 0 {
             a.cap_ms = if thorough { 20_000 } else { 10_000 };
